@@ -18,7 +18,7 @@ import (
 
 // A diode scenario: P producers x W writes each through diode.NewWriter of ring size N.
 //
-//	name = P<p>W<w>N<n>/<waiter|poller>/<normal|block1|block2|err1|err2>/<close|noclose|fatal|fatal2|closeearly|close2|closerace>
+//	name = P<p>W<w>N<n>/<waiter|poller>/<normal|block1|block2|err1|err2>/<close|noclose|fatal|fatal2|closeearly|close2|closerace|closepair>
 type params struct {
 	P, W, N  int
 	Mode     string // waiter | poller
@@ -65,6 +65,8 @@ type inst struct {
 	mutated         []string
 	prodDone        []bool
 	closeRet        bool
+	closeSnaps      [][2]int // (delivered, reported) at the moment each Close of a closepair scenario returned
+	closeRet2       bool
 	closeCalledStep int
 	wcalls          int
 	mon             uint64
@@ -234,6 +236,27 @@ func (in *inst) Body() {
 	switch p.End {
 	case "close":
 		dw.Close()
+		in.closeRet = true
+		in.bump(7, "")
+	case "closepair":
+		// two overlapping Close calls after the last Write returned (a shutdown path racing the Fatal path): what was
+		// written is delivered or reported when EITHER of them returns, not only when the first one to start does
+		snap := func() {
+			sum := 0
+			for _, a := range in.alerts {
+				sum += a
+			}
+			in.closeSnaps = append(in.closeSnaps, [2]int{len(in.delivered), sum})
+			in.bump(10+uint64(len(in.delivered))*32+uint64(sum)*1024, "")
+		}
+		mcrt.GoNamed("closer2", false, func() {
+			dw.Close()
+			snap()
+			in.closeRet2 = true
+		})
+		dw.Close()
+		snap()
+		mcrt.Block("join2", nil, func() bool { return in.closeRet2 })
 		in.closeRet = true
 		in.bump(7, "")
 	case "close2", "closerace":
@@ -486,6 +509,14 @@ func (in *inst) Check(res *mcrt.Result) []explore.Violation {
 			add("C11", holeSig, "ring never full (%d messages, size %d) yet only %d delivered before Close returned", total, p.N, len(in.delivered))
 		}
 	}
+	if p.End == "closepair" && !blockedRec {
+		for i, sn := range in.closeSnaps {
+			if sn[0]+sn[1] < len(in.written) {
+				add("C11", "", "a Close call returned (%d of two overlapping ones to return) while written=%d delivered=%d reported=%d: the rest was still on its way", i+1, len(in.written), sn[0], sn[1])
+				break
+			}
+		}
+	}
 	if (p.End == "fatal" || p.End == "fatal2") && !res.Exited && !res.Deadlock {
 		add("C11", "", "Fatal path did not reach os.Exit")
 	}
@@ -503,7 +534,7 @@ func (in *inst) Check(res *mcrt.Result) []explore.Violation {
 				add("C12", sig, "stuck: all Writes returned, no thread can run, but written=%d delivered=%d alerts=%v (consumer blocked on %v)",
 					len(in.written), len(in.delivered), in.alerts, res.BlockedOn)
 			}
-		case "close", "fatal", "fatal2", "closeearly", "close2", "closerace":
+		case "close", "fatal", "fatal2", "closeearly", "close2", "closerace", "closepair":
 			if res.Deadlock || (!in.closeRet && !res.Exited) {
 				add("C12", "", "Close did not return: deadlock=%v blocked=%v on %v", res.Deadlock, res.Blocked, res.BlockedOn)
 			}
